@@ -7,7 +7,7 @@ RULE = ("seeded random files holding 1-3 trees; reads with every kind of emdpath
         "not); non-trivial = read of a non-root path or an absent path; distinct by recipe hash")
 
 
-def mk_case(trees, reads):
+def mk_case(trees, reads, later=None):
     steps = []
     for i, tid in enumerate(trees):
         steps.append({"do": "save", "path": "A", "src": tid, "target": [], "mode": "w" if i == 0 else "a", "tree": True, "emdpath": None})
@@ -15,6 +15,16 @@ def mk_case(trees, reads):
     for (ep, opt) in reads:
         steps.append({"do": "read", "path": "A", "emdpath": ep, "tree": opt})
         steps.append({"do": "hash", "path": "A"})
+    trees = dict(trees)
+    if later is not None:
+        # the file CHANGES between reads (an append that adds a root Metadata entry): what was read before must not stick
+        tid2, t2, mode, reads2 = later
+        trees[tid2] = t2
+        steps.append({"do": "save", "path": "A", "src": tid2, "target": [], "mode": mode, "tree": True, "emdpath": None})
+        steps.append({"do": "hash", "path": "A"})
+        for (ep, opt) in reads2:
+            steps.append({"do": "read", "path": "A", "emdpath": ep, "tree": opt})
+            steps.append({"do": "hash", "path": "A"})
     return {"trees": trees, "steps": steps}
 
 
@@ -51,7 +61,16 @@ def cases(tier, seed):
             if ep is not None and ep != "" and r.random() < 0.3:
                 ep = "/" + ep
             reads.append((ep, r.choice([True, False, None])))
-        yield mk_case(trees, reads)
+        later = None
+        if r.random() < 0.35:
+            import copy
+            tid = r.choice(list(trees))
+            t2 = copy.deepcopy(trees[tid])
+            t2["md"] = list(t2.get("md", [])) + [{"name": "zz_added_later", "items": [["k", {"t": "int", "v": r.randrange(100)}]]}]
+            pth = r.choice(gen.tree_paths(t2))
+            reads2 = [(t2["name"], r.choice([True, None])), ("/".join([t2["name"]] + list(pth)), r.choice([True, False, None]))]
+            later = (tid + "_later", t2, r.choice(["a", "ao", "append"]), reads2)
+        yield mk_case(trees, reads, later)
 
 
 def run_both(drv, case):
@@ -74,13 +93,16 @@ def oracle(case, obs):
     steps = case["steps"]
     msteps = hist.LAST["msteps"]
     srcs = {}
-    for st, ms in zip(steps, msteps):
-        if st["do"] == "save":
-            srcs[ms["src"]["root"]["n"]] = ms["src"]["root"]
     h0 = None
     for k, (st, o) in enumerate(zip(steps, obs)):
+        if st["do"] == "save":
+            # what the file holds under that root name from now on (every save here writes a whole tree that extends what
+            # the file held under the name)
+            srcs[msteps[k]["src"]["root"]["n"]] = msteps[k]["src"]["root"]
         if st["do"] == "save" and o != {"ok": True}:
             return {"save_failed": o, "step": k}
+        if st["do"] == "save":
+            h0 = None          # a save may change the bytes; the reads after it must not
         if st["do"] == "hash":
             if h0 is None:
                 h0 = o.get("hash")
